@@ -40,7 +40,14 @@ var productDefs = []struct {
 }
 
 // checkProduct compares dst with the definitional adjacency adj.
-func checkProduct(c *chk, what string, ba, bb *built, dst graph.Graph, adj func(u1, u2, v1, v2 int) bool) {
+func checkProduct(c *chk, what string, ba, bb *built, dst graph.Graph, rel func(u1, u2, v1, v2 int) bool) {
+	// rel is the definitional adjacency ("~" read as "has an edge to"). A
+	// directed destination must hold exactly the arcs of rel; an undirected
+	// one joins x and y when rel holds in either direction.
+	adj := rel
+	if _, ok := dst.(graph.Directed); !ok {
+		adj = func(u1, u2, v1, v2 int) bool { return rel(u1, u2, v1, v2) || rel(v1, v2, u1, u2) }
+	}
 	a, b := ba.s, bb.s
 	nodes := graph.NodesOf(dst.Nodes())
 	if len(nodes) != a.n*b.n {
@@ -99,8 +106,14 @@ func checkProduct(c *chk, what string, ba, bb *built, dst graph.Graph, adj func(
 	}
 }
 
+// productChecks builds every product of the two operands into a simple
+// directed or undirected destination and compares it with the definition.
 func productChecks(c *chk, ba, bb *built, directed bool) {
 	a, b := ba.s, bb.s
+	dstName := "->U "
+	if directed {
+		dstName = "->D "
+	}
 	newDst := func() interface {
 		graph.Builder
 		graph.Graph
@@ -113,10 +126,10 @@ func productChecks(c *chk, ba, bb *built, directed bool) {
 	for _, pd := range productDefs {
 		pd := pd
 		dst := newDst()
-		if !catch(c, pd.name, func() { pd.f(dst, ba.g, bb.g) }) {
+		if !catch(c, dstName+pd.name, func() { pd.f(dst, ba.g, bb.g) }) {
 			return
 		}
-		checkProduct(c, pd.name, ba, bb, dst, func(u1, u2, v1, v2 int) bool { return pd.adj(a, b, u1, u2, v1, v2) })
+		checkProduct(c, dstName+pd.name, ba, bb, dst, func(u1, u2, v1, v2 int) bool { return pd.adj(a, b, u1, u2, v1, v2) })
 		if c.failed() {
 			return
 		}
@@ -138,14 +151,14 @@ func productChecks(c *chk, ba, bb *built, directed bool) {
 		return agreeIdx(u1, v1, u2, v2)
 	}
 	dst := newDst()
-	if !catch(c, "ModularExt", func() { product.ModularExt(dst, ba.g, bb.g, agree) }) {
+	if !catch(c, dstName+"ModularExt", func() { product.ModularExt(dst, ba.g, bb.g, agree) }) {
 		return
 	}
 	if bad != "" {
 		c.failf("ModularExt: %s", bad)
 		return
 	}
-	checkProduct(c, "ModularExt(agree)", ba, bb, dst, func(u1, u2, v1, v2 int) bool {
+	checkProduct(c, dstName+"ModularExt(agree)", ba, bb, dst, func(u1, u2, v1, v2 int) bool {
 		if u1 == v1 || u2 == v2 {
 			return false
 		}
@@ -156,48 +169,69 @@ func productChecks(c *chk, ba, bb *built, directed bool) {
 
 func genProduct(g *vlib.G) {
 	thorough := g.Thorough()
-	for _, directed := range []bool{false, true} {
-		directed := directed
-		maxNodes := 3
-		if !directed {
-			maxNodes = 4
-		}
-		var specs []gspec
-		var keys []string
-		collect := func(key string, s gspec) { specs = append(specs, s); keys = append(keys, key) }
+	type opSpace struct {
+		specs []gspec
+		keys  []string
+	}
+	space := func(directed bool, maxNodes int) opSpace {
+		var sp opSpace
+		collect := func(key string, s gspec) { sp.specs = append(sp.specs, s); sp.keys = append(sp.keys, key) }
 		if directed {
 			forDirected(g, maxNodes, collect)
 		} else {
 			forUndirected(g, maxNodes, collect)
 		}
-		for i := range specs {
-			for j := range specs {
+		return sp
+	}
+	und4, und3, dir3 := space(false, 4), space(false, 3), space(true, 3)
+	// operand kinds: undirected x undirected (<=4 nodes), directed x directed,
+	// and the two mixed pairings (<=3 nodes); every pair is built into an
+	// undirected and into a directed destination.
+	kinds := []struct {
+		name string
+		a, b opSpace
+	}{
+		{"UxU", und4, und4}, {"DxD", dir3, dir3}, {"UxD", und3, dir3}, {"DxU", dir3, und3},
+	}
+	for _, kd := range kinds {
+		kd := kd
+		for i := range kd.a.specs {
+			for j := range kd.b.specs {
 				if g.Stopped() {
 					return
 				}
-				sa, sb := specs[i], specs[j]
-				key := fmt.Sprintf("dir=%v A[%s] B[%s]", directed, keys[i], keys[j])
+				sa, sb := kd.a.specs[i], kd.b.specs[j]
+				key := fmt.Sprintf("%s A[%s] B[%s]", kd.name, kd.a.keys[i], kd.b.keys[j])
 				g.Case(key, func(t *vlib.T) {
 					sa, sb := sa, sb
+					// the destination kind that matches the operands (or, for mixed
+					// operands, the directed one) is the primary one.
+					primaryDirected := sa.directed || sb.directed
+					big := sa.n == 4 || sb.n == 4
 					// id maps: (ident,ident), (sparse,rev), (rev,sparse); variants asc, simple, multi.
 					combos := [][2]int{{idIdentity, idIdentity}, {idSparse, idReversed}, {idReversed, idSparse}}
 					for ci, cb := range combos {
 						for _, v := range []int{vOrdAsc, vSimple, vMulti} {
 							// quick tier, an operand with 4 nodes: one id-map
 							// combination and one of the gonum types, rotating.
-							if !thorough && (sa.n == 4 || sb.n == 4) && (ci != int(sa.mask+sb.mask)%3 || (v != vOrdAsc && (v == vMulti) != (ci == 0))) {
+							if !thorough && big && (ci != int(sa.mask+sb.mask)%3 || (v != vOrdAsc && (v == vMulti) != (ci == 0))) {
 								continue
 							}
 							ba, bb := build(&sa, cb[0], v), build(&sb, cb[1], v)
 							runCtx(t, "product", key, fmt.Sprintf("%s,%s/%s", idMapNames[cb[0]], idMapNames[cb[1]], variantNames[v]), variantRaw(v), func(c *chk) {
-								productChecks(c, ba, bb, directed)
+								productChecks(c, ba, bb, primaryDirected)
+								// the other destination kind: always on the ascending
+								// harness graphs, on the gonum types under (ident,ident).
+								if !c.failed() && (thorough || v == vOrdAsc || (ci == 0 && !big)) {
+									productChecks(c, ba, bb, !primaryDirected)
+								}
 							})
 						}
 					}
 					if sa.edges() > 0 && sb.edges() > 0 {
 						t.Nontrivial()
 					}
-					t.Outcome(fmt.Sprintf("dir=%v nA=%d nB=%d", directed, sa.n, sb.n))
+					t.Outcome(fmt.Sprintf("%s nA=%d nB=%d", kd.name, sa.n, sb.n))
 				})
 			}
 		}
